@@ -60,6 +60,16 @@ struct RegistryWorld : World {
 			if (ca > 0 && ct > 0 && (xa != ca || xt != ct)) process_sig = "cxx-id-mismatch";
 			if (ca > 0 && ct > 0 && (xa != ca || xt != ct)) snprintf(msg, sizeof msg, "the C++ ids of axis* and text* are %x and %x, their C registrations handed out %x and %x", (unsigned) xa, (unsigned) xt, (unsigned) ca, (unsigned) ct);
 		}
+		if (!msg[0]) {
+			// the C++ accessor of the metatype pointer traits as the first user of its table, with the first allocation failing: it may answer
+			// "none", it may not crash - now or at the next call (the answer is kept in a function-local static by the C++ layer, hence once per process)
+			verif_registry_reset();
+			const type_traits *t1, *t2;
+			{ Sut s(1); t1 = type_properties<metatype *>::traits(); }
+			{ Sut s; t2 = type_properties<metatype *>::traits(); }
+			(void) t1;
+			if (!t2 || t2->size != sizeof(void *)) { process_sig = "builtin-lost"; snprintf(msg, sizeof msg, "the C++ traits of metatype pointers do not resolve (%s) after an allocation failure during their first use", t2 ? "wrong size" : "null"); }
+		}
 		process_finding = msg;
 		verif_registry_reset();
 	}
@@ -165,19 +175,6 @@ struct RegistryWorld : World {
 		}
 		{ Sut s; mpt_type_traits('c'); mpt_type_traits(0x41); mpt_type_traits(TypeValue); mpt_interface_traits(0x80); }
 		const named_traits *early = 0;
-		static bool cxx_accessor_used = false;      // (the C++ layer keeps a successful answer in a function-local static, which the harness' registry reset
-		                                             // would leave dangling: one use per process, silent in the event log so that runs hash the same wherever they execute)
-		if (p.get("initfault") && initwhat == 0 && (p.seed & 1) && !cxx_accessor_used) {
-			cxx_accessor_used = true;
-			// the C++ accessor is the first user of the metatype table in this run (and, when this is the first such run of the process, ever):
-			// under an allocation failure it may answer "none", it may not crash - now or at any later call
-			const type_traits *t1, *t2; uint64_t fired;
-			{ Sut s((uint64_t) p.get("initfault")); t1 = type_properties<metatype *>::traits(); fired = g.fired; }
-			{ Sut s; t2 = type_properties<metatype *>::traits(); }
-			(void) t1; (void) fired;
-			if (!t2 || t2->size != sizeof(void *)) fail("builtin-lost", "the C++ traits of metatype pointers do not resolve (%s) after an allocation failure during the first use", t2 ? "wrong size" : "null");
-			st.hit("probe:cxx_metatype_traits_first_use");
-		}
 		if (p.get("initfault")) {
 			uint64_t fired; { Sut s((uint64_t) p.get("initfault")); early = mpt_type_metatype_add(0); fired = g.fired; }
 			if (fired) st.hit("fault:allocfail_in_table_setup");
